@@ -446,6 +446,9 @@ fn main() {
             let mut methods_bad: HashSet<String> = HashSet::new();
             let mut violations = 0usize;
             let mut cases = 0usize;
+            let max_viol = args.usize("max-viol", 60);
+            let mut stopped_early = false;
+            let mut sig_count: BTreeMap<String, usize> = BTreeMap::new();
             let corpus = corpus_cases(&args);
             // systematic stream: every registered method x {valid, bad, absent} as single-request cases
             let mut systematic: Vec<Vec<Value>> = Vec::new();
@@ -502,9 +505,11 @@ fn main() {
                     let viol = check_case(&msgs, &obs, probe_ok);
                     for (sig, what) in viol {
                         violations += 1;
-                        // shrink: does the single offending request alone reproduce it?
+                        let seen_sig = sig_count.entry(sig.clone()).or_insert(0usize);
+                        *seen_sig += 1;
+                        // shrink (only the first few of a kind): does the single offending request alone reproduce it?
                         let mut shrunk = msgs.clone();
-                        if msgs.len() > 1 {
+                        if msgs.len() > 1 && *seen_sig <= 3 {
                             for m in &msgs {
                                 if matches!(m["k"].as_str(), Some("req") | Some("unknown") | Some("task")) {
                                     let one = rebase_ids(&mut cx, &[m.clone()]);
@@ -522,6 +527,10 @@ fn main() {
                 } else {
                     println!("{}", json!({"msgs": msgs, "obs": obs, "probe": probe_ok}));
                 }
+                if violations >= max_viol {
+                    stopped_early = true;
+                    break;
+                }
                 if cx.srv.server_ended().is_some() {
                     println!("{}", json!({"signature": "server-stopped-serving", "what": "the server loop ended during the run", "case": {"msgs": msgs}}));
                     break;
@@ -530,7 +539,7 @@ fn main() {
             println!("{}", json!({"summary": {"cases": cases, "distinct_nontrivial": distinct_nontrivial, "message_kinds": kinds,
                 "response_classes": classes, "methods": cx.methods.len(), "methods_with_valid_params_case": methods_valid.len(),
                 "methods_with_bad_or_absent_params_case": methods_bad.len(), "methods_without_template": cx.no_template.iter().collect::<Vec<_>>(),
-                "violations": violations, "server_notifications_seen": cx.srv.notifications}}));
+                "violations": violations, "stopped_early_after_max_violations": stopped_early, "server_notifications_seen": cx.srv.notifications}}));
             std::io::stdout().flush().unwrap();
             std::process::exit(0);
         }
